@@ -2,6 +2,9 @@
 
 //! Haystack Def namespace
 
+#[cfg(libhaystack_verif)]
+use crate::verif_hooks::{TracedMap as DashMap, TracedRef as MapReadRef};
+#[cfg(not(libhaystack_verif))]
 use dashmap::{mapref::one::Ref as MapReadRef, DashMap};
 use lazy_static::lazy_static;
 use std::collections::{BTreeMap, HashSet};
